@@ -7,12 +7,11 @@ patch="$1"; shift
 scr=$(mktemp -d /tmp/polyscan_mut.XXXXXX)
 cd /repo && git ls-files -z | tar --null -T - -cf - | tar -xf - -C "$scr"
 if ! (cd "$scr" && patch -p1 -s < "$patch"); then echo "PATCH-FAILED $patch"; rm -rf "$scr"; exit 3; fi
-for p in "$@"; do
-  out=$(cd /verif && POLYSCAN_REPO="$scr" ./check "$p" 2>&1); rc=$?
-  case $rc in
-    1) echo "CAUGHT  $(basename $patch) $p"; echo "$out" | grep -A3 '^VIOLATION' | sed "s#$scr/##" | head -${MUT_LINES:-12} ;;
-    0) echo "MISSED  $(basename $patch) $p" ;;
-    *) echo "BROKEN  $(basename $patch) $p rc=$rc"; echo "$out" | tail -15 ;;
-  esac
-done
+plist=$(echo "$@" | tr ' ' ',')
+out=$(cd /verif && POLYSCAN_REPO="$scr" ./check "$plist" 2>&1); rc=$?
+case $rc in
+  1) echo "CAUGHT  $(basename $patch) [$(echo "$out" | grep '^VIOLATION' | sed 's/.*property=\([A-Z0-9]*\).*/\1/' | sort -u | tr '\n' ' ')]"; echo "$out" | grep -A3 '^VIOLATION' | grep -v '^--' | sed "s#$scr/##" | head -${MUT_LINES:-12} ;;
+  0) echo "MISSED  $(basename $patch) $plist" ;;
+  *) echo "BROKEN  $(basename $patch) $plist rc=$rc"; echo "$out" | tail -15 ;;
+esac
 rm -rf "$scr"
